@@ -26,7 +26,7 @@ ASSUMPTIONS = [
     "labels contain none of the connector characters and not the join string",
     "title='' and other falsy-but-not-False titles are unspecified and not generated",
 ]
-EXHAUSTIVE_NOTE = {"quick": "all ordered forests with <= 5 nodes x starts x 29 styles x title/add_self", "thorough": "all ordered forests with <= 7 nodes x starts x 29 styles x title/add_self"}
+EXHAUSTIVE_NOTE = {"quick": "all ordered forests with <= 5 nodes x starts x 29 styles x title/add_self", "thorough": "all ordered forests with <= 8 nodes x starts x 29 styles x title/add_self"}
 
 STYLES = list(CONNECTORS.keys())
 
@@ -330,7 +330,7 @@ def run_random(case, rec):
 
 
 def enum_cases(tier):
-    for spec in enumer.forests_upto(5 if tier == "quick" else 7):
+    for spec in enumer.forests_upto(5 if tier == "quick" else 8):
         n = enumer.spec_size(spec)
         for s in range(-1, n):
             yield {"spec": spec, "start": s}
@@ -393,5 +393,5 @@ def hyp_cases(draw, tier):
 
 PARTS = [
     Part("exhaustive", run_exhaustive, enum=enum_cases),
-    Part("random-options", run_random, strategy=lambda tier: hyp_cases(tier), n={"quick": 2000, "thorough": 60000}),
+    Part("random-options", run_random, strategy=lambda tier: hyp_cases(tier), n={"quick": 2000, "thorough": 200000}),
 ]
